@@ -391,11 +391,19 @@ def run_case(case, scratch):
   if case.get('layer', 'A') == 'A':
     vs, _ = run_case_a(case)
     return vs
+  if case['layer'] == 'P':
+    from lsim import concsim_p
+    return concsim_p.run_case_p(case)[0]
   from lsim import concsim_b
   return concsim_b.run_case(case, scratch)
 
 
 def shrink(case):
+  if case.get('layer') == 'P':
+    from lsim import concsim_p
+    for c in concsim_p.shrink(case):
+      yield c
+    return
   if case.get('layer', 'A') != 'A':
     from lsim import concsim_b
     for c in concsim_b.shrink(case):
@@ -471,8 +479,8 @@ def shrink(case):
 
 def plan(tier):
   if tier == 'quick':
-    return {'batches': 48, 'timeout': 600, 'a_plans': 400, 'b_programs': 4}
-  return {'batches': 480, 'timeout': 2400, 'a_plans': 4000, 'b_programs': 60}
+    return {'batches': 48, 'timeout': 600, 'a_plans': 400, 'b_programs': 4, 'p_plans': 600}
+  return {'batches': 480, 'timeout': 2400, 'a_plans': 4000, 'b_programs': 60, 'p_plans': 6000}
 
 
 def trivial_a(case, obs):
@@ -508,6 +516,9 @@ def run_batch(seed, batch, tier, scratch):
           v = dict(v)
           v['case'] = case
           S.violations.append(v)
+  if pl.get('p_plans'):
+    from lsim import concsim_p
+    concsim_p.run_batch_into(S, log, seed, batch, tier, pl['p_plans'], hashseed)
   if pl['b_programs']:
     from lsim import concsim_b
     concsim_b.run_batch_into(S, log, seed, batch, tier, scratch, pl['b_programs'], hashseed)
@@ -594,6 +605,10 @@ def evidence_meta(tier):
                'every call position (sampled in the quick tier). A run is one execution of '
                'Concertina.Run(). Non-trivial = the plan has an iteration group or a fault fired; '
                'distinct = distinct SHA-256 of the explicit case. '
+               'Layer P (plan assembly): abstract programs = DAGs of 2-9 grounded tables, 0-2 external data tables, an optional '
+               'two-member iteration, 1-4 requested predicates (a requested predicate may be an intermediate of another); for each '
+               'requested predicate an execution object with the statements of its grounded closure is handed to the real '
+               'ExecuteLogicaProgram with a simulated sql_runner; the fault-free run plus an engine error at EVERY call position. '
                'Layer B: generated programs with @Ground intermediates and/or recursion of depth 21..41 (iterative plans), a random '
                'non-empty subset of requested predicates (incl. grounded intermediates and cover members), in-memory or file database, '
                'optionally one faulted run (abort/interrupt/disk full/locked) before the checked run; executed by the real '
@@ -602,7 +617,8 @@ def evidence_meta(tier):
       'states_measure': 'distinct (plan, call trace) pairs (SHA-256 of sorted actions + engine call sequence)',
       'sim_time_unit': 'simulated seconds (sum of drawn action durations)',
       'components': {
-          'real': ['layer B: parser, compiler, concertina_lib.ExecuteLogicaProgram/RenamePredicate/ConcertinaQueryEngine, run_in_terminal.SqlRunner/RunSQL, SQLite',
+          'real': ['layer P: concertina_lib.ExecuteLogicaProgram, RenamePredicate, ConcertinaConfig, ConcertinaQueryEngine, Concertina (sql_runner and execution objects simulated)',
+                   'layer B: parser, compiler, concertina_lib.ExecuteLogicaProgram/RenamePredicate/ConcertinaQueryEngine, run_in_terminal.SqlRunner/RunSQL, SQLite',
                    'common/concertina_lib.py: Concertina (SortActions, UnderstandIterations, '
                    'UpdateStateForIterativeAction, ActionIterationWantsToStopBySignal, Run, display code '
                    'in silent/terminal/colab-text modes)', 'common/graph_art.py'],
@@ -615,7 +631,8 @@ def evidence_meta(tier):
                           'unbounded_iteration_stopped_by_signal', 'two_or_more_groups',
                           'display_rendered', 'B_compiled_iteration_executed',
                           'B_requested_predicate_is_also_an_intermediate', 'B_together_vs_alone_compared',
-                          'B_grounded_intermediates'],
+                          'B_grounded_intermediates', 'P_requested_predicate_is_also_an_intermediate',
+                          'P_external_data_tables', 'P_iteration_in_assembled_plan', 'P_several_predicates_requested'],
       'assumptions': [
           'plans are well-formed: acyclic, disjoint groups, in-group requirements point backwards in the declared order, no outside action between two members of a group',
           'a stop signal is "raised" when the file exists with non-empty content at the instant a member checks it; once seen it stays seen (the code says so explicitly)',
